@@ -620,21 +620,23 @@ Definition join_room (h : hub) (c sid : N) (k : N * N) (rs : N) (perms : option 
   match get_sess h1 sid with
   | None => (h1, outs1)
   | Some s =>
-      let h2 := if N.eqb rs 0 then h1 else rs_set h1 sid rs in
-      let h3 := match room_of h2 k with Some _ => h2 | None => set_rooms h2 (h2.(h_rooms) ++ [(k, empty_room)]) end in
+      (* the model adds the session to the member list first and then records room, room session id and
+         sends the reply; the code does it in the opposite order, nothing observes the difference *)
+      let r := match room_of h1 k with Some x => x | None => empty_room end in
+      let already := nmem sid r.(r_members) in
+      let r' := mkroom (nadd sid r.(r_members)) r.(r_incall)
+                       (if N.eqb sessuser 0 then r.(r_sessdata) else aset r.(r_sessdata) sid sessuser) r.(r_transient) r.(r_props) in
+      let s1 := upd_sess s (Some k) rs s.(s_conn) (match perms with Some p => Some p | None => s.(s_perms) end)
+                         s.(s_pending) [] h1.(h_clock) in
+      let h2 := set_clock (put_sess (set_rooms h1 (pset h1.(h_rooms) k r')) sid s1) (h1.(h_clock) + 1) in
+      let h3 := if N.eqb rs 0 then h2 else rs_set h2 sid rs in
       let h4 := set_anonymous h3 (nrem sid h3.(h_anonymous)) in
       let h5 := match s.(s_kind) with KInternal _ true => set_dialout h4 (nrem sid h4.(h_dialout)) | _ => h4 end in
-      let s1 := upd_sess s (Some k) rs s.(s_conn) (match perms with Some p => Some p | None => s.(s_perms) end)
-                         s.(s_pending) [] h5.(h_clock) in
-      let h6 := set_clock (put_sess h5 sid s1) (h5.(h_clock) + 1) in
-      let '(h7, outs2) := send_session h6 sid (SRoom (snd k)) in
+      let '(h7, outs2) := send_session h5 sid (SRoom (snd k)) in
       match room_of h7 k with
       | None => (h7, outs1 ++ outs2)
-      | Some r =>
-          let already := nmem sid r.(r_members) in
-          let r' := mkroom (nadd sid r.(r_members)) r.(r_incall)
-                           (if N.eqb sessuser 0 then r.(r_sessdata) else aset r.(r_sessdata) sid sessuser) r.(r_transient) r.(r_props) in
-          let h8 := set_rooms h7 (pset h7.(h_rooms) k r') in
+      | Some _ =>
+          let h8 := h7 in
           let uid := if N.eqb s.(s_user) 0 then sessuser else s.(s_user) in
           let h9 := if already then h8 else publish h8 (SubjRoom (fst k) (snd k)) (ARoomEvent (SJoin [(sid, uid)])) in
           let '(h10, outs3) := if already then (h9, [])
@@ -988,15 +990,12 @@ Definition do_internal (h : hub) (c sid : N) (s : session) (q : internalreq) : h
           let incallfeat := match s.(s_kind) with KInternal f _ => f | _ => false end in
           let ic := match incall with Some x => x | None => if incallfeat then 0 else 5 end in
           let fl := match flags with Some x => x | None => 0 end in
-          let vsess := mksess s.(s_backend) (KVirtual sid v) user None 0 None None [] [] 0 ic fl [] [] [] 0 in
-          let h1 := put_sess h0 vs vsess in
+          (* SetRoom: room session = own public id; the new session becomes a member of the room *)
+          let vsess := mksess s.(s_backend) (KVirtual sid v) user (Some k) (2000000 + vs) None None [] [] 0 ic fl [] [] [] 0 in
+          let r' := mkroom (nadd vs r.(r_members)) r.(r_incall) r.(r_sessdata) r.(r_transient) r.(r_props) in
+          let h1 := put_sess (set_rooms h0 (pset h0.(h_rooms) k r')) vs vsess in
           let h2 := set_vtable h1 (pset h1.(h_vtable) (sid, v) vs) in
-          (* SetRoom: room session = own public id *)
-          let h3 := rs_set h2 vs (2000000 + vs) in
-          let h4 := put_sess h3 vs (sess_rs (sess_room vsess (Some k)) (2000000 + vs)) in
-          let r0 := match room_of h4 k with Some x => x | None => empty_room end in
-          let r' := mkroom (nadd vs r0.(r_members)) r0.(r_incall) r0.(r_sessdata) r0.(r_transient) r0.(r_props) in
-          let h5 := set_rooms h4 (pset h4.(h_rooms) k r') in
+          let h5 := rs_set h2 vs (2000000 + vs) in
           let h6 := publish h5 (SubjRoom (fst k) (snd k)) (ARoomEvent (SJoin [(vs, user)])) in
           let h7 := publish h6 (SubjRoom (fst k) (snd k)) (AEvent (SPart 0) 0 false) in
           let h8 := if N.eqb fl 0 then h7 else publish h7 (SubjRoom (fst k) (snd k)) (AEvent (SFlags vs fl) 0 false) in
@@ -1087,6 +1086,10 @@ Definition finish_create (h : hub) (tok : N) (p : mcupend) (ok : bool) : hub * l
           (* released in the meantime: the new object is closed again *)
           let '(h1, o1) := send_session h p.(mp_errto) (SError E_client_not_found) in
           (h1, ToMcu (MCreated tok) :: ToMcu (MClose tok) :: o1)
+        else if N.eqb p.(mp_kind) 0 && negb (offer_allowed s.(s_perms) p.(mp_stream) (N.land p.(mp_media) 3)) then
+          (* the permission was withdrawn while the publisher was created *)
+          let '(h1, o1) := send_session h p.(mp_errto) (SError E_not_allowed) in
+          (h1, ToMcu (MCreated tok) :: ToMcu (MClose tok) :: o1)
         else if N.eqb p.(mp_kind) 0 then
           match aget s.(s_pubs) p.(mp_stream) with
           | Some _ => (* somebody else created it while we waited: the new one is closed *)
@@ -1131,7 +1134,7 @@ Definition do_media (h : hub) (c sid : N) (s : session) (to : recipient) (mk str
   match to with
   | RSession i =>
       (* the session the message names; 0 when the string is not the id of a live session *)
-      let n := match i with IdPub x => match get_sess h x with Some _ => x | None => 0 end | _ => 0 end in
+      let n := match i with IdPub x => x | _ => 0 end in
       let is_self := match i with IdPub x => N.eqb x sid | _ => false end in
       if N.eqb mk 0 then
         (* offer: create or update the publisher of the stream (the recipient is not looked at) *)
